@@ -188,7 +188,7 @@ def approx_envelope_T(ref, z, P):
     return ref.bubble_T(z, P), ref.dew_T(z, P)
 
 
-def in_box_two_phase(ch, ctx, ref, z):
+def in_box_two_phase(ch, ctx, ref, z, edge=False):
     """(T, P, theta) inside the two-phase region and inside the T/P box, by construction."""
     Ta, Tb = ref.T_window(z, P_MIN, P_MAX, T_MIN, T_MAX)
     if Ta is None or Tb is None or not Ta < Tb:
@@ -198,8 +198,42 @@ def in_box_two_phase(ch, ctx, ref, z):
     lo = max(Pd, P_MIN); hi = min(Pb, P_MAX)
     if not lo < hi:
         ctx.reject('no two-phase point inside the T/P box for this composition')
-    theta = ch.float('theta', 1e-3, 1.0 - 1e-3)
+    if edge:
+        # close to the dew or the bubble pressure, on the two-phase side (log-uniform distance 1e-4..1e-1 of the interval)
+        d = ch.logfloat('theta.edge', -4, -1)
+        theta = d if ch.choice('theta.end', ['dew', 'bubble']) == 'dew' else 1.0 - d
+    else:
+        theta = ch.float('theta', 1e-3, 1.0 - 1e-3)
     return T, lo + theta * (hi - lo), Pb, Pd
+
+
+def prelude(ch, ctx, pid, names, z, F, ideal_main, T, P):
+    """Optionally use the same chemicals with the OTHER property package (ideal <-> activity coefficients, built over the
+    same Chemical objects) before the checked flash, inside the case: solver objects are cached process-wide by chemical
+    tuple and package models, and a flash must not depend on which package touched the chemicals first.  The runner
+    clears those caches before every case, so the history has to be part of the case."""
+    mode = ch.choice('prelude', ['none', 'flash', 'flash', 'points'])
+    ctx.cell('prelude:' + mode)
+    if mode == 'none' or len(names) < 2: return mode
+    other = package(pid, ideal=not ideal_main)
+    chems = [other.chemicals[k] for k in names]
+    where = ch.choice('prelude.at', ['same', 'other'])
+    Tq = T if where == 'same' else ch.float('prelude.T', T_MIN, T_MAX)
+    Pq = P if where == 'same' else ch.logfloat('prelude.P', 4.31, 6.0)
+    try:
+        if mode == 'flash':
+            st = dict(kind='M', share=[0.0] * len(names), T0=300.0, P0=101325.0)
+            c = build(other, names, z * F, {}, st)
+            c.vle(T=Tq, P=Pq)
+        else:
+            zz = np.asarray(z, float) / np.sum(z)
+            tmo.equilibrium.BubblePoint(chems, other).solve_Py(zz, Tq)
+            tmo.equilibrium.DewPoint(chems, other).solve_Px(zz, Tq)
+            tmo.equilibrium.DewPoint(chems, other).solve_Tx(zz, Pq)
+            tmo.equilibrium.BubblePoint(chems, other).solve_Ty(zz, Pq)
+    except Exception:
+        ctx.cell('prelude:raised')       # the prelude is history, not the call under test
+    return mode
 
 
 def call_vle(ctx, s, site, region, **kw):
@@ -511,6 +545,8 @@ def prop_vspec(ch, ctx):
     except ValueError:
         ctx.reject('reference envelope bracket')
     region = nvol_tag(n)
+    prelude(ch, ctx, pid, names, z, F, False, kw.get('T', 350.0), kw.get('P', 101325.0))
+    tmo.settings.set_thermo(th)
     s = build(th, names, z * F, {}, start)
     ctx.cell('vspec:' + pair); ctx.cell('vspec:' + region)
     call_vle(ctx, s, pair, region, **kw)
@@ -606,10 +642,10 @@ def prop_boundary(ch, ctx):
     th = package(pid)
     tmo.settings.set_thermo(th)
     ref = reference(pid, names)
-    stratum = ch.choice('stratum', ['two', 'two', 'liq', 'vap'])
+    stratum = ch.choice('stratum', ['two', 'two', 'liq', 'vap', 'two-edge'])
     try:
-        if stratum == 'two':
-            T, P, Pb, Pd = in_box_two_phase(ch, ctx, ref, z)
+        if stratum in ('two', 'two-edge'):
+            T, P, Pb, Pd = in_box_two_phase(ch, ctx, ref, z, edge=stratum == 'two-edge')
         elif stratum == 'liq':
             lo = max(T_MIN, ref.bubble_T(z, P_MIN)); hi = min(T_MAX, ref.bubble_T(z, P_MAX / 1.001))
             if not lo < hi: ctx.reject('boundary: empty window')
@@ -631,6 +667,8 @@ def prop_boundary(ch, ctx):
     T = float(T); P = float(P)
     region = f'{stratum},fam={pid}'
     ctx.cell('boundary:' + stratum)
+    prelude(ch, ctx, pid, names, z, F, False, T, P)
+    tmo.settings.set_thermo(th)
     s = build(th, names, z * F, {}, start)
     kw = dict(T=T, P=P)
     call_vle(ctx, s, 'TP', region, **kw)
@@ -680,11 +718,11 @@ def prop_ideal(ch, ctx):
     th = package(pid, ideal=True)
     tmo.settings.set_thermo(th)
     ref = reference(pid, names, ideal=True)
-    stratum = ch.choice('stratum', ['two', 'two', 'two', 'liq', 'vap', 'free'])
-    if n == 1 and stratum == 'two': stratum = 'free'
+    stratum = ch.choice('stratum', ['two', 'two', 'two', 'liq', 'vap', 'free', 'two-edge'])
+    if n == 1 and stratum in ('two', 'two-edge'): stratum = 'free'
     try:
-        if stratum == 'two':
-            T, P, Pb, Pd = in_box_two_phase(ch, ctx, ref, z)
+        if stratum in ('two', 'two-edge'):
+            T, P, Pb, Pd = in_box_two_phase(ch, ctx, ref, z, edge=stratum == 'two-edge')
         else:
             T = ch.float('T', T_MIN, T_MAX)
             Pb = ref.bubble_P(z, T)[0]; Pd = ref.dew_P(z, T)[0]
@@ -696,6 +734,9 @@ def prop_ideal(ch, ctx):
         ctx.reject('reference envelope bracket')
     T = float(T); P = float(P)
     region = f'{nvol_tag(n)},{ "two" if Pd < P < Pb else "single"}'
+    pre = prelude(ch, ctx, pid, names, z, F, True, T, P)
+    tmo.settings.set_thermo(th)
+    region += f',pre={int(pre != "none")}'
     s = build(th, names, z * F, {}, start)
     kw = dict(T=T, P=P)
     ctx.cell('ideal:' + ('two' if Pd < P < Pb else 'single'))
@@ -742,13 +783,13 @@ def prop_scaling(ch, ctx):
         names, z, F = draw_volatile(ch, pid, 1, 5, exclude=excl)
     inerts = draw_inerts(ch, pid) if pair[1] not in 'xy' else {}
     start = draw_start(ch, names)
-    k = ch.logfloat('k', -3, 3)
+    k = ch.logfloat('k', -9, 6)        # the scaling clause does not bound k
     th = package(pid, ideal)
     tmo.settings.set_thermo(th)
     n = len(names)
     approx = reference(pid, names, ideal=(True if pair[1] not in 'xy' else ideal))
     kw, mol, stratum = draw_spec_values(ch, ctx, pid, th, names, z, F, inerts, pair, approx)
-    region = f'{nvol_tag(n)},inert={int(bool(inerts))},ideal={int(ideal)}'
+    region = f'{nvol_tag(n)},inert={int(bool(inerts))},ideal={int(ideal)},pm={pm_tag(pid, names, ideal)}'
     site = 'scale.' + pair
     ctx.cell('scale:' + pair)
     s1 = build(th, names, mol, inerts, start)
